@@ -128,7 +128,7 @@ def shape_request(rng, o, relative, scale=20.0, kinds=None, grid=None):
         t = (q(o[0] + d * math.cos(a)), q(o[1] + d * math.sin(a)), o[2] + dz)
         meta.update(target_abs=t, with_z=with_z)
         if kind == "thread":
-            pitch = abs(dz) / rng.choice([0.5, 1, 2, 3.5, 6])
+            pitch = abs(dz) / rng.choice([0.55, 1.3, 2.4, 3.5, 6.5])   # never an integer ratio: floor() is discontinuous there
             meta.update(pitch=pitch)
             return "trace.thread", (_tgt(o, t, relative, True), pitch), {}, meta
         turns = rng.choice([1, 2, 3])
